@@ -66,6 +66,10 @@ def _cases_first_call(tier):
         if spec['family'] == 'cf1d' and spec.get('bounds', 'none') == 'none' and min(spec['ny'], spec['nx']) < 2:
             continue
         out.append({'part': 'A', 'spec': spec})
+    # a plugin convention derived from a built-in one through the documented hook (_make_polygons): land cells without polygons
+    out.append({'part': 'A', 'spec': {'family': 'cf1d', 'ny': 3, 'nx': 4, 'bounds': 'var', 'plugin': 'holed', 'plugin_missing': [5, 6],
+                                      'explicit_names': True}})
+    out.append({'part': 'A', 'spec': {'family': 'cf1d', 'ny': 4, 'nx': 3, 'plugin': 'holed', 'plugin_missing': [0, 4, 11], 'explicit_names': True}})
     for (r, c) in array_shapes(tier):
         total = 2 ** (r * c)
         for start in range(0, total, CHUNK):
